@@ -391,23 +391,35 @@ class Ref:
 
 
 def expr_for(rng, vars_, depth):
-    """A tree with finite value that does not need its parentheses (decided by evaluating the
-    tree against its parenthesis-free text at random bindings) and never has a bare formal
-    as the base of `^` -- i.e. one that avoids the two known expression defects of the
-    reader.  Trees that do need parentheses are generated in a dedicated stream."""
+    """A tree with finite value that avoids the two known expression defects of the reader:
+    it does not need its parentheses, and splicing (possibly negative) actual values in as
+    text does not change its meaning.  Both are decided by evaluation: the tree against its
+    parenthesis-free text, with the formals bound as values and spliced in as text, at
+    random positive and mixed-sign bindings.  Trees that trigger a defect are generated in
+    the dedicated `known` stream only."""
     for _ in range(200):
         e = gen_expr(rng, depth, vars_)
         ok = True
         toks = e_tokens(e, 1, random.Random(0), 0.0)
-        for _ in range(2):
-            env = {v: rng.uniform(0.3, 2.7) for v in vars_}
+        src = toks_python(toks, True)
+        for k in range(4 if vars_ else 1):
+            lo = 0.3 if k < 2 else -2.7
+            env = {v: rng.uniform(lo, 2.7) for v in vars_}
             try:
                 v = e_eval(e, env)
-                s = py_value(toks_python(toks, True), env)
+            except Bad:
+                if k < 2:
+                    ok = False
+                    break
+                continue          # undefined at this binding: irrelevant
+            try:
+                s = py_value(src, env)
+                t = py_value(src, env, textual=True) if vars_ else s
             except Bad:
                 ok = False
                 break
-            if not (finite_ok(v) and finite_ok(s) and close(v, s)):
+            if not (finite_ok(v) and finite_ok(s) and finite_ok(t)
+                    and close(v, s) and close(v, t)):
                 ok = False
                 break
         if ok:
